@@ -18,11 +18,11 @@ import (
 // C47: WebSocket and TLS stream tunnels are byte-transparent.
 
 type tunnelScript struct {
-	Mode      string   // ws | wss | stream
-	B2C       [][]byte // backend -> client chunks (B2C[0] is coalesced with the 101 response in ws modes)
-	WantC2B   int      // bytes the backend expects from the client
+	Mode          string   // ws | wss | stream
+	B2C           [][]byte // backend -> client chunks (B2C[0] is coalesced with the 101 response in ws modes)
+	WantC2B       int      // bytes the backend expects from the client
 	BackendCloses bool
-	Graceful  bool
+	Graceful      bool
 	// results
 	done      chan struct{}
 	Recv      []byte
